@@ -134,6 +134,33 @@ def _wrap_in_cse(ctx, model):
             if arg == P:
                 kinds.add("wrap")
                 ok = is_cse is False and is_leaf is False
+                # containers are not wrapped whole: "apply componentwise to
+                # object arrays and multivectors" is said of both helpers
+                from ..summary import facts_of
+                ruled_out = set()
+                for _, pol, c in ps.conds:
+                    if not isinstance(c, tuple):
+                        continue
+                    if c == ("except", "ImportError") and pol:
+                        # numpy cannot be imported: there are no arrays
+                        ruled_out.add("ndarray")
+                        continue
+                    for at, p_ in facts_of(c, pol):
+                        if isinstance(at, tuple) and at and at[0] == "call" and \
+                                at[1] == "isinstance" and at[2][0] == P and not p_:
+                            r_ = repr(at[2][1])
+                            for k in ("MultiVector", "ndarray"):
+                                if k in r_:
+                                    ruled_out.add(k)
+                okc = ruled_out == {"MultiVector", "ndarray"}
+                ctx.ob("K/wrap_in_cse/componentwise", okc, loc,
+                       "object arrays and multivectors never get a wrapper as a "
+                       "whole" if okc else
+                       "wrap_in_cse puts one wrapper around its argument without "
+                       "having ruled out that it is an object array or a "
+                       "multivector: wrap_in_cse(numpy.array([x + y, x*y], "
+                       "dtype=object)) is CSE(array(...)), not an array of "
+                       "wrapped entries")
                 ctx.ob("O/wrap_in_cse/constants-left-unwrapped", is_const is False,
                        loc, "a constant is never wrapped" if is_const is False
                        else "wrap_in_cse puts a wrapper around its argument "
@@ -155,6 +182,11 @@ def _wrap_in_cse(ctx, model):
             else:
                 ctx.ob("O/wrap_in_cse/ctor-arg", False, loc,
                        f"wrap_in_cse builds a wrapper around {arg}")
+        elif rv[0] == "call" and rv[1] == "make_common_subexpression" and \
+                rv[2] and rv[2][0] == P:
+            # containers are handed to the componentwise helper (whose own
+            # rules are K/make_common_subexpression/*)
+            kinds.add("delegated")
         else:
             ctx.ob("O/wrap_in_cse/exit", False, loc,
                    f"unexpected result {ast.unparse(ps.items[-1][1])}")
